@@ -222,6 +222,80 @@ def late_reducer(v, case, scratch, tag):
         v.bad("rejected-late:reduced-axis/after-add", "user functions ran before the rejection", **w)
 
 
+def with_output_names(v, case, env, scratch, tag, rng):
+    """fixed_indices together with output_names: what counts is the SUB-pipeline that runs. A prefix of the functions whose
+    outputs are requested may have an independent axis that a later function (not requested) reduces - it can be partitioned;
+    and an axis that only later functions have is unknown to the requested part."""
+    from pipefunc.map import load_outputs
+
+    cand_full, _ = axes_info(case)
+    inputs = mapgen.make_inputs(case)
+    for m in range(1, len(case["funcs"])):
+        funcs = case["funcs"][:m]
+        used = {p for f in funcs for p in f["params"]}
+        sub = {**case, "funcs": funcs, "roots": {r: x for r, x in case["roots"].items() if r in used}}
+        cand_sub, _ = axes_info(sub)
+        only_sub = [a for a in cand_sub if a not in cand_full]
+        outs = {o for f in funcs for o in f["outs"]}
+        sub_inputs = {r: inputs[r] for r in sub["roots"]}
+        ish = {k: x for k, x in (mapgen.internal_shapes_arg(case) or {}).items() if k in outs} or None
+        w = dict(case=mapgen.describe(case), output_names=sorted(outs))
+        sub_axes = {a for f in funcs if f["mapspec"] for a in f["out_axes"]} | {a for r in sub["roots"].values() for a in r["axes"]}
+        foreign = [a for a in cand_full if a not in sub_axes]
+        if foreign:
+            log = probes.new_log(scratch)
+            err = None
+            try:
+                with quiet():
+                    mapgen.build_pipeline(case, log=log).map(sub_inputs, run_folder=os.path.join(scratch, f"on-x-{tag}-{m}"), internal_shapes=ish,
+                                                             parallel=False, storage="file_array", output_names=outs, fixed_indices={foreign[0]: 0})
+            except Exception as e:  # noqa: BLE001
+                err = e
+            v.count("rejections_with_output_names")
+            if err is None:
+                v.bad("accepted:axis-outside-the-requested-outputs", f"fixed_indices={{{foreign[0]!r}: 0}} accepted although no requested output "
+                      f"(output_names={sorted(outs)}) has that axis", **w)
+        if not only_sub:
+            continue
+        a = only_sub[0]
+        n = case["sizes"][a]
+        parts = [slice(0, 1), slice(1, None)] if n >= 2 else [slice(None)]
+        if rng.random() < 0.5:
+            parts.reverse()
+        folder = os.path.join(scratch, f"on-{tag}-{m}")
+        log = probes.new_log(scratch)
+        with quiet():
+            pipeline = mapgen.build_pipeline(case, log=log)
+        first = True
+        for part in parts:
+            try:
+                with quiet():
+                    pipeline.map(sub_inputs, run_folder=folder, internal_shapes=ish, parallel=False, storage="file_array", output_names=outs,
+                                 fixed_indices={a: part}, cleanup=first)
+            except Exception as e:  # noqa: BLE001
+                v.bad(exc_sig(e, "refused-fixed_indices/with-output_names"), f"valid fixed_indices={{{a!r}: {part}}} with output_names={sorted(outs)} "
+                      f"refused (the axis is reduced only by functions that are not requested): {exc_msg(e)}", **w)
+                return
+            first = False
+        v.count("partitions_with_output_names")
+        probes.log_clear(log)
+        try:
+            with quiet():
+                pipeline.map(sub_inputs, run_folder=folder, internal_shapes=ish, parallel=False, storage="file_array", output_names=outs, cleanup=False)
+            calls = probes.log_read(log)
+            if calls:
+                v.bad("final-run-recomputes/with-output_names", f"final run recomputed {len(calls)} element(s)", **w)
+            for o in sorted(outs):
+                with quiet():
+                    lo = probes.render(load_outputs(o, run_folder=folder))
+                if lo != probes.render(env[o]):
+                    v.bad("final-data-differs/with-output_names", f"{o} after all parts differs from a single full run", got=lo[:300], **w)
+                    break
+        except Exception as e:  # noqa: BLE001
+            v.bad(exc_sig(e, "final-run/with-output_names"), f"final run raised {exc_msg(e)}", **w)
+        return
+
+
 def rejections(v, case, cand, reduced, scratch):
     log = probes.new_log(scratch)
     with quiet():
@@ -267,12 +341,23 @@ def run_learners(v, case, env, exp_calls, cand, split, use_fixed, order_seed, sc
     rng = random.Random(order_seed)
     folder = os.path.join(scratch, f"learn-{tag}")
     log = probes.new_log(scratch)
+    # (40%: the MapSpec functions declare resources per ELEMENT - create_learners then makes one learner per element)
+    elem = rng.random() < 0.4
+    extra = {f["name"]: {"resources": {"cpus": 1}, "resources_scope": "element"} for f in case["funcs"] if f["mapspec"]} if elem else None
+    if elem:
+        v.count("learner_sets_with_element_scope_resources")
     with quiet():
-        pipeline = mapgen.build_pipeline(case, log=log)
+        pipeline = mapgen.build_pipeline(case, log=log, extra=extra)
     inputs = mapgen.make_inputs(case)
     ish = mapgen.internal_shapes_arg(case)
     fixed_sets = [None]
-    if use_fixed and cand:
+    if use_fixed and cand and rng.random() < 0.3 and case["sizes"][cand[0]] >= 2:
+        # the axis cut into two slices (the second part first half of the time)
+        fixed_sets = [{cand[0]: slice(1, None)}, {cand[0]: slice(0, 1)}]
+        if rng.random() < 0.5:
+            fixed_sets.reverse()
+        v.count("learner_sets_with_slice_parts")
+    elif use_fixed and cand:
         # one axis, or (half of the time) every admissible axis pinned to an int; ints are given in negative form 40% of the time
         axes = list(cand) if rng.random() < 0.5 else [cand[0]]
         while len(axes) > 1 and np.prod([case["sizes"][a] for a in axes]) > 12:
@@ -281,7 +366,7 @@ def run_learners(v, case, env, exp_calls, cand, split, use_fixed, order_seed, sc
         for combo in itertools.product(*[range(case["sizes"][a]) for a in axes]):
             fixed_sets.append({a: (i if rng.random() < 0.6 else i - case["sizes"][a]) for a, i in zip(axes, combo)})
         rng.shuffle(fixed_sets)
-        if any(x < 0 for fs in fixed_sets for x in fs.values()):
+        if any(isinstance(x, int) and x < 0 for fs in fixed_sets for x in fs.values()):
             v.count("learner_sets_with_negative_ints")
         if len(axes) > 1:
             v.count("learner_sets_fixing_several_axes")
@@ -353,6 +438,7 @@ def run_case(desc):
             rng = random.Random(f"c06:{desc['seed']}:{i}")
             rejections(v, case, cand, reduced, scratch)
             late_reducer(v, case, scratch, i)
+            with_output_names(v, case, env, scratch, i, rng)
             for k, (split, use_fixed) in enumerate([(False, False), (True, False), (False, True)]):
                 if not any(is_map(f) for f in case["funcs"]):
                     continue
@@ -399,4 +485,8 @@ def finalize(agg, tier, seed):
     for k in ("rejection:unknown-axis", "rejection:index-out-of-range", "rejection:reduced-axis"):
         if c.get(k, 0) < 50:
             floors.append(f"{k} = {c.get(k, 0)} (< 50)")
+    if c.get("partitions_with_output_names", 0) < 30 or c.get("rejections_with_output_names", 0) < 5:
+        floors.append(f"too few fixed_indices runs combined with output_names ({c.get('partitions_with_output_names', 0)}, {c.get('rejections_with_output_names', 0)})")
+    if c.get("learner_sets_with_element_scope_resources", 0) < 50 or c.get("learner_sets_with_slice_parts", 0) < 5:
+        floors.append("too few learner sets with element-scope resources / slice parts")
     return floors, {}
